@@ -17,6 +17,12 @@ AUTH = r"^radicle_node::worker::Worker::is_authorized$"
 
 
 def run(ctx):
+    _run(ctx)
+    from . import _worker
+    _worker.identity_refresh(ctx, "auth")
+
+
+def _run(ctx):
     db = ctx.db
     ctx.explanation = (
         "Decides structurally: who may call upload_pack; the call is dominated by is_authorized()=Ok on the same "
